@@ -1059,3 +1059,21 @@ func init() {
 	pureIntrinsics["strings.IndexAny"] = true
 	pureIntrinsics["strings.LastIndexAny"] = true
 }
+
+// time: a logical clock. Now() returns strictly increasing instants (ext field, wall = 0).
+func inTimeNow(c *Ctx, fr *Frame, fn *ssa.Function, a []Value) Value {
+	c.clock += 1000
+	return Agg{c.tb.Const(0, S64), c.tb.Int(c.clock, 64), Ptr{}}
+}
+
+func init() {
+	intrinsics["time.Now"] = inTimeNow
+	intrinsics["time.Since"] = func(c *Ctx, fr *Frame, fn *ssa.Function, a []Value) Value { return c.tb.Int(1000, 64) }
+	intrinsics["time.Until"] = func(c *Ctx, fr *Frame, fn *ssa.Function, a []Value) Value { return c.tb.Int(1000, 64) }
+	intrinsics["time.Sleep"] = func(c *Ctx, fr *Frame, fn *ssa.Function, a []Value) Value {
+		if c.sched != nil {
+			c.sched.yield(fr, "sleep")
+		}
+		return nil
+	}
+}
